@@ -315,6 +315,8 @@ class SsbScriptCompilerListener(SsbScriptListener):
         self._labels_before_op.append(label)
 
     def _enlarge_routine_info(self) -> None:
+        if self._active_routine_id < 0:
+            raise SsbCompilerError(_("Routine ids must not be negative."))
         if len(self.routine_infos) - 1 < self._active_routine_id:
             needed = self._active_routine_id - len(self.routine_infos) + 1
             for i in range(0, needed):
